@@ -184,3 +184,22 @@ package kgo
 //@ func (cl *Client) FlushAcks$2()
 //@   prop C12
 //@   loop 0 exit [flush-ends-only-drained-or-cancelled] *quit || $Load0 <= 0
+
+// ---- C12 (e): the gap ranges a fetch produces never cover a delivered record ----
+// processSharePartition walks each acquired range: an offset hole in front of a delivered record becomes a gap
+// range that ends just BEFORE that record, the tail of the range after the last delivered record becomes a gap up
+// to the range's end - so the gap ranges handed to buildAckRanges contain no acknowledged record's offset (its
+// precondition) and no record is acknowledged twice.
+//@ func (s *source) processSharePartition(topicName string, cursor *shareCursor, sessionEpoch int32, rp *kmsg.ShareFetchResponseTopicPartition, acqLockDeadlineNanos int64) (fp FetchPartition, gaps []shareAckRange)
+//@   prop C12
+//@   site call append#1 assert [hole-gap-ends-just-before-the-delivered-record] arg1[0].firstOffset == nextExpected && arg1[0].lastOffset == r.Offset - 1 && nextExpected < r.Offset
+//@   site call append#2 assert [tail-gap-runs-to-the-end-of-the-acquired-range] arg1[0].firstOffset == nextExpected && arg1[0].lastOffset == ar.LastOffset && nextExpected <= ar.LastOffset
+//@   site store offset#0 assert [state-carries-the-records-own-offset] val == r.Offset
+
+// handleShareReqResp: whether the acknowledgements that rode on a ShareFetch are reported as confirmed is decided
+// by the partition's ACKNOWLEDGE error code (not by the fetch error code): a `nil` result is appended only when
+// that code is 0.
+//@ func (s *source) handleShareReqResp(req *kmsg.ShareFetchRequest, resp *kmsg.ShareFetchResponse, usable []*shareCursor, piggybackAcks []cursorAckDrain, piggybackIdx map[tidp]int) (res shareFetchResult)
+//@   prop C12
+//@   site call ErrorForCode#1 assert [ack-error-taken-from-the-acknowledge-code] arg0 == rp.AcknowledgeErrorCode && arg0 != 0
+//@   site call ErrorForCode#2 assert [fetch-error-taken-from-the-fetch-code] arg0 == rp.ErrorCode && arg0 != 0
